@@ -54,6 +54,10 @@
 //       Dune::Future::ready throw), so the answer is not compared
 //
 // Oracles (independent of the Lean model):
+//   futures, round four: a completion claim (ready() == true, wait()/get()/get_send_data() returning on a valid future)
+//           must be backed by MPI having reported the request of the POSTED operation complete to the future (the
+//           interposed MPI_Wait/MPI_Test/MPI_Request_get_status/MPI_Testall/MPI_Waitall compare the handle they are
+//           asked about with the one the interposed MPI_I* call produced): "becomes ready once the operation has completed".
 //   guard   for every section and communicator: failed := some member's act in {f,x,q}; every member with act in
 //           {t,d,f,r} must observe E iff failed; x must see its own exception, q nothing; no deadlock (collective
 //           counts of the members of a communicator, observed through the interposed MPI_Allreduce, agree; a rank that
@@ -214,9 +218,17 @@ bool haveReq = false;
 MPI_Request lastReq = MPI_REQUEST_NULL;
 int pendingBudget = 0;  // number of MPI_Test calls on an active request that are still answered "not complete"
 long testCalls = 0, forced = 0;
+// round four -- "becomes ready once THE OPERATION has completed": a future may claim completion (ready() == true, wait()/
+// get()/get_send_data() returning) only after MPI has reported the request of the posted operation complete to it.
+// `completedVia` is set by the interposed completion calls when the request they are asked about is the one the
+// interposed MPI_I* call of this case produced and MPI reports it complete.  A future that does not hold the request of
+// its operation (request kept in a local, freed, lost in a move) waits on MPI_REQUEST_NULL and claims completion with
+// `completedVia` still false.
+bool completedVia = false;
 void capture(MPI_Request* r) {
-  if (futMode && r) { lastReq = *r; haveReq = true; }
+  if (futMode && r) { lastReq = *r; haveReq = true; completedVia = false; }
 }
+inline bool isPosted(MPI_Request r) { return futMode && haveReq && r == lastReq; }
 // the buffers of the operation posted last (what MPI reads from / writes to until the request completes)
 struct BufRec {
   bool have = false;
@@ -239,6 +251,7 @@ void captureBuf(const void* sb, size_t sbytes, const void* rb, size_t rbytes) {
 }
 void resetCapture() {
   haveReq = false;
+  completedVia = false;
   lastReq = MPI_REQUEST_NULL;
   lastBuf = BufRec();
   pendingBudget = 0;
@@ -293,7 +306,23 @@ int MPI_Test(MPI_Request* req, int* flag, MPI_Status* st) {
       return MPI_SUCCESS;
     }
   }
-  return PMPI_Test(req, flag, st);
+  const bool posted = ip::isPosted(*req);
+  int rc = PMPI_Test(req, flag, st);
+  if (posted && *flag) ip::completedVia = true;
+  return rc;
+}
+int MPI_Wait(MPI_Request* req, MPI_Status* st) {
+  const bool posted = ip::isPosted(*req);
+  int rc = PMPI_Wait(req, st);
+  if (posted) ip::completedVia = true;
+  return rc;
+}
+int MPI_Waitall(int count, MPI_Request reqs[], MPI_Status sts[]) {
+  bool posted = false;
+  for (int i = 0; i < count; ++i) posted = posted || ip::isPosted(reqs[i]);
+  int rc = PMPI_Waitall(count, reqs, sts);
+  if (posted) ip::completedVia = true;
+  return rc;
 }
 // the same steering for the other ways of asking "is it complete?" (a ready() written with them stays deterministic)
 int MPI_Request_get_status(MPI_Request req, int* flag, MPI_Status* st) {
@@ -306,7 +335,10 @@ int MPI_Request_get_status(MPI_Request req, int* flag, MPI_Status* st) {
       return MPI_SUCCESS;
     }
   }
-  return PMPI_Request_get_status(req, flag, st);
+  const bool posted = ip::isPosted(req);
+  int rc = PMPI_Request_get_status(req, flag, st);
+  if (posted && *flag) ip::completedVia = true;
+  return rc;
 }
 int MPI_Testall(int count, MPI_Request reqs[], int* flag, MPI_Status sts[]) {
   if (ip::futMode) {
@@ -320,7 +352,11 @@ int MPI_Testall(int count, MPI_Request reqs[], int* flag, MPI_Status sts[]) {
       return MPI_SUCCESS;
     }
   }
-  return PMPI_Testall(count, reqs, flag, sts);
+  bool posted = false;
+  for (int i = 0; i < count; ++i) posted = posted || ip::isPosted(reqs[i]);
+  int rc = PMPI_Testall(count, reqs, flag, sts);
+  if (posted && *flag) ip::completedVia = true;
+  return rc;
 }
 int MPI_Ibarrier(MPI_Comm comm, MPI_Request* request) {
   int rc = PMPI_Ibarrier(comm, request);
@@ -690,6 +726,16 @@ static Result runSteps(IFut& f, const FutCase& c, const Expect& ex) {
   std::string fail;
   bool taken = ex.startsInvalid, completed = ex.pseudo || ex.startsInvalid, envComplete = false, interesting = false;
   auto note = [&](const std::string& m) { if (fail.empty()) fail = m; };
+  // the future claims that its operation is complete: MPI must have said so about the posted request (see ip::completedVia)
+  auto claimsCompletion = [&](const std::string& where, const char* how) {
+    if (!ip::haveReq) return;  // no operation was posted (default constructed futures, the sequential communicator)
+    stat("fut_completion_claims");
+    if (!ip::completedVia) {
+      stat("fut_completion_unbacked");
+      note(where + how + " although MPI never reported the request of the posted operation complete to this future "
+           "(the future does not hold the request of its operation)");
+    }
+  };
   {
     std::string own = buffersOfOperationLive();
     if (!own.empty()) { note("before the first call: " + own); stat("fut_ownership_lost"); }
@@ -736,7 +782,7 @@ static Result runSteps(IFut& f, const FutCase& c, const Expect& ex) {
           if (!taken) {
             if (known && !r) note(where + "ready() = false although the operation has completed");
             if (!known && r && ip::forced > before) note(where + "ready() = true although MPI_Test reported the operation as not complete");
-            if (r) completed = true;
+            if (r) { completed = true; claimsCompletion(where, "ready() = true"); }
           }
           break;
         }
@@ -753,6 +799,7 @@ static Result runSteps(IFut& f, const FutCase& c, const Expect& ex) {
           o = !r ? "TIMEOUT" : taken ? "*" : "T";
           if (!r) note(where + "ready() never became true although every process takes part in the operation");
           if (r) completed = true;
+          if (r && !taken) claimsCompletion(where, "ready() = true (polling)");
           break;
         }
         case 'w': {
@@ -761,6 +808,7 @@ static Result runSteps(IFut& f, const FutCase& c, const Expect& ex) {
           f.wait();
           o = "ok";
           if (taken) note(where + "wait() on an invalid future returned instead of throwing InvalidFutureException");
+          else claimsCompletion(where, "wait() returned");
           completed = true;
           break;
         }
@@ -770,6 +818,7 @@ static Result runSteps(IFut& f, const FutCase& c, const Expect& ex) {
           std::vector<int> g;
           const void* addr = nullptr;
           bool payload = f.get(g, addr);
+          if (!taken) claimsCompletion(where, "get() returned");
           if (!payload) {
             o = "ok";
             if (taken) note(where + "get() on an invalid future returned instead of throwing InvalidFutureException");
@@ -790,6 +839,7 @@ static Result runSteps(IFut& f, const FutCase& c, const Expect& ex) {
           std::vector<int> g;
           const void* addr = nullptr;
           f.getSend(g, addr);
+          if (!taken) claimsCompletion(where, "get_send_data() returned");
           o = listStr(g);
           if (taken) note(where + "get_send_data() on an invalid future returned " + listStr(g) + " instead of throwing InvalidFutureException");
           else {
